@@ -1,0 +1,13 @@
+//go:build verif
+
+package client
+
+import "time"
+
+// Verification hooks (build tag "verif" only): thin exported wrappers around
+// unexported functions so that an external harness can drive them. No logic here.
+
+// VerifScheduleActive evaluates schedule.activeForTime.
+func VerifScheduleActive(start, end string, weekdays []time.Weekday, dates []string, t time.Time) (bool, error) {
+	return newSchedule(start, end, weekdays, dates).activeForTime(t)
+}
